@@ -119,6 +119,35 @@ mod verif_kani_probe {
         assert!(st.depth == 0);
     }
 
+    /// quick-tier part (no probing on this path): with the lexer hint ForcedByte(b) the answer is Some(b) exactly when the state is
+    /// NOT accepting - in an accepting state end-of-sequence is an alternative, so nothing is forced - and the recognizer is not touched
+    #[kani::proof]
+    #[kani::unwind(258)]
+    fn forced_byte_hint_respects_accepting() {
+        let fb: u8 = kani::any();
+        let mut allowed = [0u64; 4];
+        allowed[(fb / 64) as usize] = 1u64 << (fb % 64);
+        let mut st = ShimState { allowed, accepting: kani::any(), lexer: ShimLexer { hint: NextByte::ForcedByte(fb) }, depth: 0, speculative: 0, pushes: 0 };
+        let accepting = st.accepting;
+        let r = st.forced_byte();
+        kani::cover!(r.is_some());
+        kani::cover!(r.is_none());
+        match r {
+            Some(b) => assert!(!accepting && b == fb),
+            None => assert!(accepting),
+        }
+        assert!(st.pushes == 0 && st.depth == 0);
+    }
+    #[kani::proof]
+    #[kani::unwind(258)]
+    fn mustfail_forced_byte_hint_always() {
+        let fb: u8 = kani::any();
+        let mut allowed = [0u64; 4];
+        allowed[(fb / 64) as usize] = 1u64 << (fb % 64);
+        let mut st = ShimState { allowed, accepting: kani::any(), lexer: ShimLexer { hint: NextByte::ForcedByte(fb) }, depth: 0, speculative: 0, pushes: 0 };
+        assert!(st.forced_byte().is_some());
+    }
+
     // vacuity guard (must FAIL): claims a byte is reported whenever at least one byte is accepted
     #[kani::proof]
     #[kani::unwind(258)]
